@@ -49,6 +49,7 @@ import (
 
 	"github.com/conduitio/conduit/pkg/foundation/cerrors"
 	"github.com/conduitio/conduit/pkg/foundation/cerrors/conduiterr"
+	"github.com/conduitio/conduit/pkg/foundation/verifhook"
 	"github.com/conduitio/conduit/pkg/lifecycle"
 	"github.com/conduitio/conduit/pkg/pipeline"
 	"github.com/conduitio/conduit/pkg/provisioning/config"
@@ -598,6 +599,7 @@ func (s *Service) ApplyPlanLive(ctx context.Context, desired config.Pipeline, ha
 	if err := s.lifecycleService.StopAndWait(ctx, desired.ID); err != nil {
 		return fresh, cerrors.Errorf("could not stop pipeline %q to apply live changes: %w", desired.ID, err)
 	}
+	verifhook.Point("provisioning.applylive.stopped")
 
 	if err := s.transactionalImport(ctx, desired); err != nil {
 		// The pipeline is already stopped (StopAndWait above) and the
@@ -607,6 +609,7 @@ func (s *Service) ApplyPlanLive(ctx context.Context, desired config.Pipeline, ha
 		return fresh, err
 	}
 
+	verifhook.Point("provisioning.applylive.imported")
 	if err := s.lifecycleService.Start(ctx, desired.ID); err != nil {
 		// The new config is already durably committed; only the restart
 		// failed. Leave the pipeline stopped with the valid new config and
